@@ -102,6 +102,7 @@ type Exec struct {
 	own         map[string]string // map reference term -> owning field (owned fields have their own heap classes)
 	recFuncs    map[string]*recFunc
 	symCache    map[string][]string
+	byCall      bool
 	nerr        int
 	inlineStack []*ssa.Function
 	pkgShort    string
@@ -156,6 +157,14 @@ func (x *Exec) oblige(st *State, kind, name string, props []string, goal Term, t
 func (x *Exec) obligeX(st *State, kind, name string, props []string, goal Term, text string, pos string, must, cover bool) {
 	if x.prop != "" && !hasProp(props, x.prop) {
 		return
+	}
+	if !must && !cover && (kind == "invariant-init" || kind == "invariant-step" || kind == "pre" || kind == "typeinv") {
+		if parts := topConjuncts(goal); len(parts) > 1 {
+			for i, pt := range parts {
+				x.obligeX(st, kind, fmt.Sprintf("%s.%d", name, i+1), props, pt, fmt.Sprintf("%s   [conjunct %d]", text, i+1), pos, false, false)
+			}
+			return
+		}
 	}
 	o := &Obligation{Name: x.funcName() + "/" + name, Kind: kind, Props: props, Text: text, Path: x.paths, Func: x.funcName(), Pos: pos, Must: must, Cover: cover}
 	if !cover && goal.S != "true" {
@@ -449,6 +458,7 @@ func (x *Exec) step(fr *Frame, st *State, ins ssa.Instruction) {
 			}
 		}
 		x.store(st, p, v)
+		x.noteStore(st, p, v)
 		x.markDirty(st, p)
 		if strings.HasPrefix(p.Prefix, "global:") && !strings.HasSuffix(fr.fn.Name(), "init") {
 			x.globalStore(fr, st, ins, p)
@@ -494,6 +504,7 @@ func (x *Exec) step(fr *Frame, st *State, ins ssa.Instruction) {
 		m := x.val(fr, st, ins.Map).(Sc)
 		x.nilCheck(fr, st, m, ins, "assignment to entry in nil map")
 		x.mapUpdate(st, m, x.val(fr, st, ins.Key), x.val(fr, st, ins.Value))
+		x.noteStore(st, Ptr{Idx: []Term{m.T}}, x.val(fr, st, ins.Value))
 	case *ssa.MakeMap:
 		r := x.newRef(st, "map")
 		mt := ins.Type()
@@ -516,11 +527,20 @@ func (x *Exec) step(fr *Frame, st *State, ins ssa.Instruction) {
 		c := Clo{Fn: ins.Fn.(*ssa.Function), GT: ins.Type()}
 		for _, b := range ins.Bindings {
 			c.Bind = append(c.Bind, x.val(fr, st, b))
+			x.escape(st, x.val(fr, st, b), true)
 		}
 		fr.vals[ins] = c
 	case *ssa.MakeInterface:
 		v := x.val(fr, st, ins.X)
-		fr.vals[ins] = Sc{x.def(st, "mi", x.box(st, v, ins.X.Type())), ins.Type()}
+		bt := x.def(st, "mi", x.box(st, v, ins.X.Type()))
+		fr.vals[ins] = Sc{bt, ins.Type()}
+		if pt, ok := ins.X.Type().(*types.Pointer); ok {
+			if fld, ok := x.prog.specs.Unwraps[typeStr(pt.Elem())]; ok {
+				// errors.Is looks through Unwrap: the boxed error wraps exactly the error in that field
+				inner := x.load(st, Ptr{Prefix: typeStr(pt.Elem()) + "." + fld, Idx: []Term{x.scalarOf(v)}}, types.Universe.Lookup("error").Type()).(Sc)
+				st.assume(x.wrapsOnly(bt, inner.T))
+			}
+		}
 	case *ssa.ChangeInterface:
 		fr.vals[ins] = Sc{x.val(fr, st, ins.X).(Sc).T, ins.Type()}
 	case *ssa.ChangeType:
@@ -1154,9 +1174,11 @@ func (x *Exec) classTermSort(st *State, class, sort string) Term {
 		return t
 	}
 	ep := 0
+	var epRec *epoch
 	for i := len(st.epochs) - 1; i >= 0; i-- {
 		if st.epochs[i].matches(class) {
 			ep = st.epochs[i].id
+			epRec = &st.epochs[i]
 			break
 		}
 	}
@@ -1164,6 +1186,13 @@ func (x *Exec) classTermSort(st *State, class, sort string) Term {
 	x.decls.add(name, fmt.Sprintf("(declare-const %s %s)", name, sort))
 	t := Term{name, sort}
 	st.heap[class] = t
+	if epRec != nil && len(epRec.locals) > 0 && strings.HasPrefix(sort, "(Array Int ") && !strings.HasPrefix(class, "global:") {
+		// a callee cannot reach objects this activation allocated and never let escape
+		prev := x.classTermSort(epRec.pre, class, sort)
+		for _, l := range epRec.locals {
+			st.pc = append(st.pc, mkEq(mkSelect(t, l), mkSelect(prev, l)))
+		}
+	}
 	return t
 }
 
